@@ -522,6 +522,8 @@ def run(ctx):
     corr.info["type_combinations"] = len(combos) - len(failed)
     corr.info["points_per_combination"] = nfields * npts
     run_corpus(ctx, corr, ["dbg", "rel"])
+    from harness import ldlib
+    ldlib.part(ctx, corr, ["linear"], "lin_lattice")      # long double coordinates: lattice points and cell centres
     return corr
 
 
@@ -583,6 +585,13 @@ def run_corpus(ctx, corr, cfgs):
 
 def replay(ctx):
     c = ctx.replay["case"]
+    if c and c.get("op") == "longdouble":
+        from vlib.framework import Corr as _Corr
+        from harness import ldlib
+        corr = _Corr()
+        corr.add_obl("lin_lattice")
+        ldlib.part(ctx, corr, c["ops"], "lin_lattice", cfgs=(c.get("cfg", "dbg"),))
+        return corr
     corr = Corr()
     if "corpus" in c:
         corr.add_obl("lin_bound")
